@@ -597,12 +597,13 @@ XIncludeUtils::doXIncludeTEXTFileDOM(const XMLCh *href,
     XMLBuffer repository;
     while((nRead=stream->readBytes(buffer+nOffset, maxToRead-nOffset))>0){
         XMLSize_t bytesEaten=0;
-        XMLSize_t nCount = transcoder->transcodeFrom(buffer, nRead, xmlChars, maxToRead*2, bytesEaten, charSizes);
+        // the bytes carried over from the previous block are part of the data
+        XMLSize_t nAvail=nRead+nOffset;
+        XMLSize_t nCount = transcoder->transcodeFrom(buffer, nAvail, xmlChars, maxToRead*2, bytesEaten, charSizes);
         repository.append(xmlChars, nCount);
-        if(bytesEaten<nRead) {
-            nOffset=nRead-bytesEaten;
-            memmove(buffer, buffer+bytesEaten, nRead-bytesEaten);
-        }
+        nOffset=nAvail-bytesEaten;
+        if(nOffset>0)
+            memmove(buffer, buffer+bytesEaten, nOffset);
     }
     return parsedDocument->createTextNode(repository.getRawBuffer());
 }
